@@ -14,16 +14,16 @@ import (
 
 // Input is one generated encoding handed to the oracles.
 type Input struct {
-	Family  string // structure family of the generator
-	Bytes   []byte
-	Class   string // "base" or the mutation class
-	Detail  string
-	Base    string // description of the base's non-default choices
-	Devs    []string
-	Vector  []int
-	Regions []refmodel.Region // regions of the *base* encoding
-	BaseLen int
-	Aux     int // extra parser argument: destination sig type for OfflineSignature, sig type for Signature
+	Family   string // structure family of the generator
+	Bytes    []byte
+	Class    string // "base" or the mutation class
+	Detail   string
+	Base     string // description of the base's non-default choices
+	Devs     []string
+	Vector   []int
+	Regions  []refmodel.Region // regions of the *base* encoding
+	BaseLen  int
+	Aux      int // extra parser argument: destination sig type for OfflineSignature, sig type for Signature
 	devClass string
 }
 
